@@ -352,6 +352,8 @@ static void run_fork2(void)
 		pthread_create(&rt, NULL, racer_thread, NULL);
 		have_racer_thread = 1;
 	}
+	if (vrt_param("ncb", 0))
+		do_call_rcu(0);		/* the default call_rcu helper exists (and has work) when the forks happen */
 	p1 = bracketed_fork();
 	if (p1 == 0)
 		have_racer_thread = 0;		/* the child has only the forking thread */
@@ -366,7 +368,7 @@ static void run_fork2(void)
 		}
 	p2 = bracketed_fork();
 	who = p1 == 0 ? (p2 == 0 ? "grandchild" : "child (after forking again)") : (p2 == 0 ? "second child" : "parent (after two forks)");
-	use_everything(who, 0, 2);
+	use_everything(who, (int)vrt_param("ncb", 0) ? 1 : 0, 2);
 	if (pre_lfht) {
 		RD_LOCK();
 		for (cds_lfht_first(pre_ht, &it); cds_lfht_iter_get_node(&it); cds_lfht_next(pre_ht, &it))
